@@ -13,12 +13,22 @@
 //!     `StateMetadataEncoding` variant the library knows.
 //! (c) size boundary: payloads of 65 530 ..= 65 540 bytes pack iff they fit the 16-bit length.
 //!
-//! Not reached: `IotaDocument::unpack_from_output` / `unpack_from_block` exist only with the `client` feature of
-//! identity_iota_core (iota-sdk), which the harness does not enable; they are thin wrappers around
-//! `StateMetadataDocument::unpack(..).and_then(|d| d.into_iota_document(did))`, which is what is driven here.
+//! (d) the alias-output entry point `IotaDocument::unpack_from_output` (feature `client`): the documents of (a)
+//!     (deviation-bounded) packed into a real `AliasOutput` x state controller address x governor address (Ed25519,
+//!     alias of a foreign tag, alias of a controller of the document, another alias, NFT) x state metadata present /
+//!     empty x allow_empty x unpack DID (self / target): the result is compared with the route of (a) — same
+//!     document, the two ledger address fields equal to the bech32 forms of the output's addresses, controllers equal
+//!     to the packed ones when the state controller is not an alias and otherwise the packed ones plus at most that
+//!     alias' DID.
+//!
+//! Not reached: `unpack_from_block` (needs a signed transaction payload around the output; it calls
+//! `unpack_from_output` per alias output).
 
 use identity_core::convert::{FromJson, ToJson};
 use identity_did::DID;
+use identity_iota_core::block::address::{Address, AliasAddress, Ed25519Address, Hrp, NftAddress, ToBech32Ext};
+use identity_iota_core::block::output::unlock_condition::{GovernorAddressUnlockCondition, StateControllerAddressUnlockCondition};
+use identity_iota_core::block::output::{AliasId, AliasOutput, AliasOutputBuilder, NftId, UnlockCondition};
 use identity_iota_core::{IotaDID, IotaDocument, StateMetadataDocument, StateMetadataEncoding};
 use serde::{Deserialize, Serialize};
 use serde_json::Value;
@@ -109,6 +119,8 @@ enum Case {
   Encodings { base: u8 },
   /// (c) document padded so that the JSON payload has exactly `payload` bytes
   Size { payload: u32 },
+  /// (d) choice sequence of `output_body`
+  Output(Vec<u32>),
 }
 
 // ------------------------------------------------------------------ (a) documents from choices
@@ -903,6 +915,153 @@ fn summarise(d: &IotaDocument) -> String {
   )
 }
 
+
+// ------------------------------------------------------------------ (d) the alias-output entry point
+const A2: &str = "did:iota:0x2222222222222222222222222222222222222222222222222222222222222222";
+const ADDRS: [&str; 6] = ["ed25519", "alias(F1)", "alias(A2)", "nft", "alias(first controller of the document)", "alias(T)"];
+fn address(kind: usize, doc: &IotaDocument) -> Address {
+  let alias = |d: &str| Address::Alias(AliasAddress::new(AliasId::from(&IotaDID::parse(d).expect("alias DID"))));
+  match kind {
+    0 => Address::Ed25519(Ed25519Address::new([0x5a; 32])),
+    1 => alias(F1),
+    2 => alias(A2),
+    3 => Address::Nft(NftAddress::new(NftId::new([0x3c; 32]))),
+    4 => match doc.controller().next() {
+      Some(c) => Address::Alias(AliasAddress::new(AliasId::from(c))),
+      None => alias(A2),
+    },
+    _ => alias(T),
+  }
+}
+fn controllers_of(tree: &Value) -> Vec<String> {
+  match tree.pointer("/doc/controller") {
+    Some(Value::String(c)) => vec![c.clone()],
+    Some(Value::Array(a)) => a.iter().filter_map(|c| c.as_str().map(str::to_string)).collect(),
+    _ => vec![],
+  }
+}
+fn output_body(ctx: &Ctx, ch: &mut Chooser) {
+  let b = build(ch);
+  let sc_kind = ch.choose("state-controller-address", ADDRS.len());
+  let gov_kind = ch.choose("governor-address", ADDRS.len());
+  let with_metadata = ch.choose("state-metadata", 2) == 0;
+  let allow_empty = ch.choose("allow_empty", 2) == 0;
+  let for_target = ch.choose("unpack-for", 2) == 1;
+  let case = Case::Output(ch.seq());
+  if b.placeholder {
+    return out("output:placeholder-in-identifier-position(not driven)");
+  }
+  let doc = match guard(|| IotaDocument::from_json_value(b.tree.clone())) {
+    Ok(Ok(d)) => d,
+    _ => match guard(|| build_via_api(&b.tree, &b.s)) {
+      Ok(Some(d)) => d,
+      _ => return out("output:input-not-a-valid-document"),
+    },
+  };
+  let own = IotaDID::parse(&b.s).expect("self DID");
+  let did = if for_target { IotaDID::parse(&b.target).expect("target DID") } else { own.clone() };
+  let packed = match guard(|| doc.clone().pack()) {
+    Ok(Ok(p)) => p,
+    _ => return out("output:document-does-not-pack"),
+  };
+  let (sc, gov) = (address(sc_kind, &doc), address(gov_kind, &doc));
+  let mut builder = AliasOutputBuilder::new_with_amount(1, AliasId::from(&own))
+    .add_unlock_condition(UnlockCondition::StateControllerAddress(StateControllerAddressUnlockCondition::new(sc)))
+    .add_unlock_condition(UnlockCondition::GovernorAddress(GovernorAddressUnlockCondition::new(gov)));
+  if with_metadata {
+    builder = builder.with_state_metadata(packed.clone());
+  }
+  let output: AliasOutput = match builder.finish() {
+    Ok(o) => o,
+    // (iota-sdk refuses the output: state metadata over 8192 bytes, an alias controlling itself)
+    Err(_) => return out("output:refused-by-the-output-builder"),
+  };
+  shard().distinct.push(Ctx::hash_of(&ch.seq()));
+  let got = match guard(|| IotaDocument::unpack_from_output(&did, &output, allow_empty)) {
+    Err(p) => return ctx.violation(&format!("IotaDocument::unpack_from_output|{}", p.key()), &p.msg, &case),
+    Ok(r) => r,
+  };
+  let what = |m: &str| format!("state controller {}, governor {}, metadata {}, allow_empty {allow_empty}, unpacked for {}: {m}", ADDRS[sc_kind], ADDRS[gov_kind], if with_metadata { "packed document" } else { "empty" }, if for_target { "the target" } else { "the own DID" });
+  if !with_metadata {
+    return match (allow_empty, got) {
+      (false, Ok(d)) => ctx.violation("IotaDocument::unpack_from_output|empty-state-metadata-without-allow_empty|accepted", &what(&format!("returned {}", d.to_json().unwrap_or_default())), &case),
+      (false, Err(_)) => out("output:empty-metadata:refused"),
+      (true, Err(e)) => ctx.violation("IotaDocument::unpack_from_output|empty-state-metadata-with-allow_empty|refused", &what(&e.to_string()), &case),
+      (true, Ok(d)) => {
+        // documented: "an empty DID document marked as deactivated"
+        let ok = d.id() == &did && d.metadata.deactivated == Some(true) && d.methods(None).is_empty() && d.service().is_empty();
+        if !ok {
+          ctx.violation("IotaDocument::unpack_from_output|empty-state-metadata-with-allow_empty|not-the-empty-deactivated-document", &what(&d.to_json().unwrap_or_default()), &case);
+        }
+        out("output:empty-metadata:empty-deactivated-document")
+      }
+    };
+  }
+  // the route judged in (a)
+  let base = guard(|| StateMetadataDocument::unpack(&packed).and_then(|s| s.into_iota_document(&did)));
+  let base = match base {
+    Err(_) => return out("output:base-route-panics(reported by (a))"),
+    Ok(b) => b,
+  };
+  let (r, d0) = match (got, base) {
+    (Err(_), Err(_)) => return out("output:refused-like-unpack+into_iota_document"),
+    (Ok(r), Err(e)) => {
+      return ctx.violation("IotaDocument::unpack_from_output|unpack+into_iota_document-refuses|accepted", &what(&format!("base route: {e}; got {}", r.to_json().unwrap_or_default())), &case)
+    }
+    (Err(e), Ok(_)) => return ctx.violation("IotaDocument::unpack_from_output|unpack+into_iota_document-accepts|refused", &what(&e.to_string()), &case),
+    (Ok(r), Ok(d0)) => (r, d0),
+  };
+  // ledger address fields: exactly the output's addresses in the network of the DID the output is unpacked for
+  let hrp = Hrp::from_str_unchecked(did.network_str());
+  let want = |a: &Address| Some(a.to_bech32(hrp).to_string());
+  if r.metadata.state_controller_address != want(output.state_controller_address()) || r.metadata.governor_address != want(output.governor_address()) {
+    ctx.violation(
+      "IotaDocument::unpack_from_output|ledger-address-fields|not-the-addresses-of-the-output",
+      &what(&format!("stateControllerAddress {:?} (want {:?}), governorAddress {:?} (want {:?})", r.metadata.state_controller_address, want(output.state_controller_address()), r.metadata.governor_address, want(output.governor_address()))),
+      &case,
+    );
+  }
+  let (tr, t0) = (guard(|| serde_json::to_value(&r)), guard(|| serde_json::to_value(&d0)));
+  let (mut tr, mut t0) = match (tr, t0) {
+    (Ok(Ok(a)), Ok(Ok(b))) => (without_ledger_addresses(&a), without_ledger_addresses(&b)),
+    _ => return ctx.violation("IotaDocument::unpack_from_output|result|does-not-serialize", &what(""), &case),
+  };
+  let (cr, c0) = (controllers_of(&tr), controllers_of(&t0));
+  for t in [&mut tr, &mut t0] {
+    if let Some(o) = t.get_mut("doc").and_then(|d| d.as_object_mut()) {
+      o.remove("controller");
+    }
+  }
+  if let Some(path) = first_diff(&tr, &t0, &mut vec![]) {
+    ctx.violation(
+      "IotaDocument::unpack_from_output|document|differs-from-unpack+into_iota_document-outside-controller-and-ledger-addresses",
+      &what(&format!("at /{}: {:?} vs {:?}", path.join("/"), at(&tr, &path), at(&t0, &path))),
+      &case,
+    );
+  }
+  let sc_did = match output.state_controller_address() {
+    Address::Alias(a) => Some(IotaDID::new(a.alias_id(), &did.network_str().to_owned().try_into().expect("network")).to_string()),
+    _ => None,
+  };
+  match &sc_did {
+    None => {
+      if cr != c0 {
+        ctx.violation("IotaDocument::unpack_from_output|controllers|changed-although-the-state-controller-is-not-an-alias", &what(&format!("{cr:?} vs packed {c0:?}")), &case);
+      }
+      out("output:non-alias-state-controller:document-equal")
+    }
+    Some(a) => {
+      // the library appends the state controller alias' DID (its tests pin that); the statement does not speak about
+      // it: judged is only that nothing else appears and nothing packed disappears
+      let kept: Vec<&String> = cr.iter().filter(|c| *c != a || c0.contains(c)).collect();
+      if kept != c0.iter().collect::<Vec<_>>() {
+        ctx.violation("IotaDocument::unpack_from_output|controllers|not-the-packed-controllers-plus-at-most-the-state-controller-alias", &what(&format!("{cr:?} vs packed {c0:?}, state controller DID {a}")), &case);
+      }
+      out(if cr.contains(a) { "output:alias-state-controller:its-DID-among-the-controllers" } else { "output:alias-state-controller:its-DID-not-added [open]" })
+    }
+  }
+}
+
 // ------------------------------------------------------------------ (b) framing
 /// base 0: the default document of (a) (payload > 255 bytes); base 1: the smallest document (payload < 256 bytes).
 fn base_doc(base: u8) -> (IotaDocument, IotaDID) {
@@ -1096,6 +1255,10 @@ fn eval(ctx: &Ctx, case: &Case) {
       ctx.eval1();
       eval_size(ctx, case, *payload)
     }
+    Case::Output(seq) => {
+      ctx.eval1();
+      output_body(ctx, &mut Chooser::replay(seq))
+    }
     _ => {
       ctx.eval1();
       eval_frame(ctx, case)
@@ -1107,7 +1270,8 @@ fn generate(ctx: &Ctx) {
   ctx.rule("(a) choice DFS over document shapes x rebase target: the compact alphabets (first entries of every table) deviation-bounded in quick and as a whole product in thorough, the wide alphabets deviation-bounded in both tiers; every successful rebase is followed by a second hop back; (b) two base frames: every value of each header byte, every (version,encoding) pair, every 16-bit length prefix, every truncation, trailing bytes, every encoding variant; (c) payload sizes around 65535. distinct_nontrivial = distinct choice sequences whose document the library accepts (the early reject is an input the library refuses to build) + distinct frame/size cases");
   ctx.assume("serde_json trees are compared; the baseline of the rewrite model is the library's own JSON of the input document");
   ctx.assume("the property excludes documents that mention the reserved placeholder did:0:0; read as: in an identifier position (id, controller, method id/controller, reference, service id) — those are executed and only judged for panics. The same string inside alsoKnownAs, service endpoints and custom properties is not an identifier and must come back unchanged");
-  ctx.assume("IotaDocument::unpack_from_output / unpack_from_block need the `client` feature (iota-sdk) and are not built; their decoding step StateMetadataDocument::unpack + into_iota_document is what is driven");
+  ctx.assume("IotaDocument::unpack_from_output is driven on real iota-sdk AliasOutput values (part d); unpack_from_block (a signed transaction payload around the output) is not; the alias DID the library appends to the controllers when the state controller is an alias address is designed behaviour the statement does not mention: judged is only that nothing else appears and nothing packed disappears");
+  ctx.assume("iota-sdk (AliasOutputBuilder, bech32 of addresses) is trusted");
   // (a)
   let compact_bound = ctx.by_tier(Some(5u32), None);
   let wide_bound = ctx.by_tier(Some(3u32), Some(4u32));
@@ -1115,6 +1279,13 @@ fn generate(ctx: &Ctx) {
   choice::explore_into(ctx, "documents x targets (compact alphabets)", compact_bound, |ch| doc_body(ctx, ch));
   COMPACT.store(false, Ordering::SeqCst);
   choice::explore_into(ctx, "documents x targets (wide alphabets)", wide_bound, |ch| doc_body(ctx, ch));
+  // (d)
+  let output_bound = ctx.by_tier(Some(3u32), Some(4u32));
+  COMPACT.store(true, Ordering::SeqCst);
+  choice::explore_into(ctx, "alias outputs: documents x addresses x metadata x allow_empty x DID (compact alphabets)", output_bound, |ch| output_body(ctx, ch));
+  COMPACT.store(false, Ordering::SeqCst);
+  ctx.bound("output_deviation_bound", output_bound);
+  ctx.bound("output_addresses", &ADDRS[..]);
   flush_shards(ctx);
   // (b)
   let mut cases = Vec::new();
